@@ -1,6 +1,7 @@
 package oned
 
 import (
+	"github.com/makiuchi-d/gozxing/verifhook"
 	"strings"
 
 	"github.com/makiuchi-d/gozxing"
@@ -43,6 +44,7 @@ func NewCode93Reader() gozxing.Reader {
 }
 
 func (this *code93Reader) DecodeRow(rowNumber int, row *gozxing.BitArray, hints map[gozxing.DecodeHintType]interface{}) (*gozxing.Result, error) {
+	verifhook.Touch("oned.scratch", this, true)
 
 	startLeft, startRight, e := this.findAsteriskPattern(row)
 	if e != nil {
